@@ -35,10 +35,22 @@ FOCUS = {
     "C19": "AnsiDecoder.decode / decode_line, _ansi_tokenize, FileProxy.write / flush, Live._enable_redirect_io / Progress._enable_redirect_io and their _disable counterparts, AnsiDecoder.decode_line (carriage returns, empty SGR), re_ansi",
     "C20": "Theme.from_file / read / config (theme.py), ThemeStack.push_theme / pop_theme, Console.get_style / push_theme / pop_theme / use_theme, ThemeContext",
 }
-HEAD = open("/tmp/benign_out2/full_01.txt").read().split("Your worktree:")[0]
-HEAD = HEAD.replace("produce FOUR different refactorings (so eight in total)", f"produce {['','ONE','TWO','THREE','FOUR'][count]} different refactorings ({2*count} in total)").replace("(n = 1,2,3,4)", "(n = " + ",".join(str(first + i) for i in range(count)) + ")").replace("at most one of the eight", "at most one of them")
+HEAD = """You are helping to evaluate a verification tool for the Python library `rich` (willmcgugan/rich, version 9.10). The tool decides a set of semantic properties of the library from its source. Your job is the NEGATIVE control: for each of the two properties below, produce {COUNT} different BEHAVIOUR-PRESERVING REFACTORINGS ({TOTAL} in total) of the code that the property is anchored in. A good tool must stay silent on every one of them.
+
+Requirements for every refactoring:
+ * It changes the code that implements the property's mechanism (the anchor files / functions), not comments, docstrings or unrelated code. 5-40 changed lines; a maintainer could plausibly commit it as a clean-up, a readability change or a micro-optimisation.
+ * Behaviour is IDENTICAL for EVERY input, history and schedule - not just for the tests. Same return values, same emitted segments, same exceptions, same locking. No new public API, no changed signatures of public functions. If in doubt, do not use it. At most one of them may be a trivial rename / reorder of independent statements; the others must restructure control flow or data flow (guard clauses vs nesting, helper extraction with parameters, loop <-> comprehension, introducing or removing temporaries, merging or splitting branches, equivalent arithmetic, equivalent stdlib idioms, while <-> for, early return vs else, conditional expression <-> if statement, moving an invariant computation).
+ * The package still imports and the existing test suite gives EXACTLY the same result as the clean tree: `cd <worktree> && /venv/bin/python -m pytest -q -p no:cacheprovider --timeout=900 tests 2>&1 | tail -3` prints `11 failed, 430 passed, 1 skipped` with the same 11 failing tests.
+ * You must convince yourself of equivalence: write a differential script that imports the patched and the clean package (e.g. run the same randomised workload under both trees in two subprocesses and compare the printed results; cwd decides which `rich` is imported when the script starts with `import os, sys; sys.path.insert(0, os.getcwd())`) and compares at least several hundred inputs aimed at the changed code, including boundary inputs (empty, zero, negative, wide characters, nested). Keep the script out of the patch.
+
+You work ONLY in your own scratch git worktree (given below; a checkout of the library; `rich/` is the package, `tests/` the tests) and write output ONLY to <outdir>/<PROPERTY_ID>/ . Never read, list or touch /repo, /verif or any other directory. Python: /venv/bin/python.
+
+For property P and number n (n = {NUMS}): make the edit, run the tests, run your differential check, save `git diff` to <outdir>/P/n.patch.diff, then `git checkout -- .`. Verify every saved patch with `git apply --check` on the clean worktree and leave the worktree clean. Finally write <outdir>/notes_<agent id>.json = a JSON list with one entry per refactoring: {{"property": "Cxx", "n": <n>, "kind": "<what sort of restructuring>", "summary": "<file, function, what was rewritten into what>", "why_equivalent": "<the argument, and what the differential run covered>"}}. Reply with a short summary.
+
+"""
+HEAD = HEAD.replace("{COUNT}", ["", "ONE", "TWO", "THREE", "FOUR"][count]).replace("{TOTAL}", str(2 * count)).replace("{NUMS}", ",".join(str(first + i) for i in range(count))).replace("{{", "{").replace("}}", "}")
 for k in range(10):
-    a, b = props[k], props[(k + 5) % 10 + 10]
+    a, b = props[k], props[(k + int(os.environ.get('BENIGN_SHIFT', '5'))) % 10 + 10]
     txt = HEAD + f"Your worktree: /tmp/wt/R{k + 1:02d}\nYour output directory (outdir): {out}\nYour agent id: {k + 1:02d}\n\n"
     txt += "IMPORTANT - variety: earlier rounds already produced the refactorings listed under 'ALREADY DONE' for each property. Do NOT repeat those. This round, at least two of your refactorings per property must restructure functions named under FOCUS (the code that changed most recently); choose substantial restructurings of their control flow / data flow (guard clauses vs nesting, helper extraction with parameters, loop <-> comprehension, temporaries, merging or splitting branches, equivalent arithmetic, equivalent stdlib idioms) that keep behaviour identical for EVERY input.\n"
     for p in (a, b):
